@@ -632,6 +632,12 @@ impl Sys {
         out
     }
 
+    /// Marks the commands stored so far as seen (without any read of an aggregate).
+    #[allow(dead_code)]
+    pub fn new_cmds_pub(&mut self) -> usize {
+        self.new_cmds().len()
+    }
+
     /// Commands stored since the previous observation, in (entity, version) order.
     fn new_cmds(&mut self) -> Vec<Value> {
         let mut out = vec![];
